@@ -44,7 +44,8 @@ TSnap ==
   /\ l <= Len(Rec) /\ Rec[l].ev = "snap"
   /\ LET e == Rec[l]
          dpre == DiffIfaces(e.d1, e.pre) dpost == DiffIfaces(e.d1, e.post)
-         stable == DiffIfaces(e.d1, e.d2)
+         (* the statistics interface (estimated counts) is only required to be stable: the same snapshot, the same answer *)
+         stable == DiffIfaces(e.d1, e.d2) \cup (IF SeqSet(e.d1.cnt) # SeqSet(e.d2.cnt) THEN {"cnt"} ELSE {})
          wkind == e.writer[1].op
      IN /\ (IF ~e.late_read \/ dpre = {} THEN TRUE
             (* the snapshot was complete before the writer started: it must show the state before *)
